@@ -319,6 +319,9 @@ func c01Scenarios(tier string) []*core.Scenario {
 			}
 			return insnCase(mode, "RET", x86ref.Want{Op: "RET", Fixed: true}, feat("form", "noparam", "mn", "RET"), nil)
 		}})
+	ctx := c02Context()
+	ctx.Name = "reg_mem_behind_same_shape"
+	scs = append(scs, ctx)
 	return scs
 }
 
